@@ -6,6 +6,7 @@ import Larking.Gen.TrieDel
 import Larking.Lemmas.TrieDel
 import Larking.Lemmas.TrieDelStable
 import Larking.Lemmas.TrieUK
+import Larking.Lemmas.TrieDelCount
 import Larking.Gen.Lexer
 /-
   C11 — Dispatch follows the live registration set.  The registry state machine of mux.go /
@@ -273,6 +274,34 @@ theorem delRule_false_means_gone (name : Nat) (n : Node) (h : delRule Gen.aliveC
     (ks : List KEdge) (verb : Bytes) (m : Meth) (hb : BoundIn n ks (some verb) m) : m.mid ≠ name :=
   delRule_none Gen.aliveCounts name n h ks verb m hb
 
+open Larking.Trie in
+/-- **`delRule` removes exactly one verb binding of the method per successful call** — the pruning
+of dead nodes removes none — **and reports false exactly when none is left**: `removeHandler`'s
+loop `for s.path.delRule(name) {}` ends after as many calls as the method has verb bindings, and
+then no verb route of a dropped method is left anywhere in the trie. -/
+theorem delRule_removes_exactly_one (name : Nat) (n n' : Node)
+    (h : delRule Gen.aliveCounts name n = some n') : countN name n' + 1 = countN name n :=
+  delRule_count Gen.aliveCounts alive_counts_every_binding_site name n n' h
+
+open Larking.Trie in
+theorem delRule_loop_ends_clean (name fuel : Nat) (n : Node) (hf : countN name n ≤ fuel) :
+    delRule Gen.aliveCounts name (delAll Gen.aliveCounts name fuel n) = none ∧
+    countN name (delAll Gen.aliveCounts name fuel n) = 0 :=
+  delAll_complete Gen.aliveCounts alive_counts_every_binding_site name fuel n hf
+
+open Larking.Trie in
+/-- not vacuous: method 1 holds two verb bindings (`GET /p/x`, `POST /p`), two calls remove them,
+the third reports false. -/
+example :
+    let mA : Trie.Meth := ⟨1, [], 0⟩
+    let mB : Trie.Meth := ⟨2, [], 1⟩
+    let x : Trie.Node := .mk [] [([71, 69, 84], mA)] none []
+    let pn : Trie.Node := .mk [([47, 120], x)] [([71, 69, 84], mB), ([80, 79, 83, 84], mA)] none []
+    let root : Trie.Node := .mk [([47, 112], pn)] [] none []
+    countN 1 root = 2 ∧ countN 1 (delAll Gen.aliveCounts 1 1 root) = 1 ∧
+    delRule Gen.aliveCounts 1 (delAll Gen.aliveCounts 1 2 root) = none := by
+  exact ⟨by rfl, by rfl, by rfl⟩
+
 open Larking.Trie Larking.Lexer in
 /-- **Dispatch is stable across `DropConn`**: a request the router dispatches to a method other
 than the one whose rules are being removed is dispatched to the SAME method with the SAME
@@ -376,6 +405,8 @@ end Larking.Props.C11
 #print axioms Larking.Props.C11.delRule_keeps_other_methods
 #print axioms Larking.Props.C11.delRule_invents_nothing
 #print axioms Larking.Props.C11.delRule_false_means_gone
+#print axioms Larking.Props.C11.delRule_removes_exactly_one
+#print axioms Larking.Props.C11.delRule_loop_ends_clean
 #print axioms Larking.Props.C11.dispatch_stable_across_deletions
 #print axioms Larking.Props.C11.dispatch_stable_across_drop
 #print axioms Larking.Props.C11.deletions_create_no_route
